@@ -7,12 +7,28 @@ cd "$(dirname "$0")"
 export GOFLAGS=-mod=mod GOPROXY=off GOSUMDB=off GOTOOLCHAIN=local
 export GOCACHE=/verif/.cache/go
 mkdir -p bin .work .cache
+BIN=${VERIF_BIN:-/verif/bin}
 build() {
   go build -tags verif -o bin/vcheck ./cmd/vcheck || { echo "BUILD FAILED" >&2; exit 2; }
+}
+# C17 tools: instrumenter -> overlay -> scheduler checker; race-detector build of the same scenario bodies.
+# VERIF_OVERLAY (optional) names an input overlay (a mutant): it is instrumented / raced instead of /repo's files.
+build_c17() {
+  mkdir -p "$BIN"
+  go build -o bin/vinstr ./cmd/vinstr || { echo "BUILD FAILED (vinstr)" >&2; exit 2; }
+  (cd /repo && /verif/bin/vinstr "$BIN/../instr-$$" "${VERIF_OVERLAY:-}") >/dev/null || { echo "INSTRUMENTATION FAILED" >&2; exit 2; }
+  go build -tags "verif vsched" -overlay "$BIN/../instr-$$/overlay.json" -o "$BIN/vschedcheck" ./cmd/vschedcheck || { echo "BUILD FAILED (vschedcheck)" >&2; exit 2; }
+  rm -rf "$BIN/../instr-$$"
+  if [ -n "${VERIF_OVERLAY:-}" ]; then
+    go build -race -tags verif -overlay "$VERIF_OVERLAY" -o "$BIN/vrace" ./cmd/vrace || { echo "BUILD FAILED (vrace)" >&2; exit 2; }
+  else
+    go build -race -tags verif -o "$BIN/vrace" ./cmd/vrace || { echo "BUILD FAILED (vrace)" >&2; exit 2; }
+  fi
 }
 case "${1:-}" in
   setup)
     build
+    build_c17
     ./bin/vcheck list >/dev/null || exit 2
     echo "setup ok"
     ;;
@@ -22,6 +38,11 @@ case "${1:-}" in
   replay)
     build
     exec ./bin/vcheck replay "$2"
+    ;;
+  C17)
+    build
+    build_c17
+    exec ./bin/vcheck run "$1" "${2:-${VERIF_TIER:-quick}}"
     ;;
   *)
     build
